@@ -55,7 +55,12 @@ pub fn standard_requests(g: &Grammar, gi: usize, d: &mut Dice<'_>, per_entry: us
     for entry in 0..=g.parts.len() {
         let rule = if entry == 0 { g.start } else { g.parts[entry - 1] };
         let n = if entry == 0 { per_entry } else { per_entry / 2 };
-        for (i, toks) in inputs::standard_inputs(g, &s, rule, d, n, max_len).into_iter().enumerate() {
+        let t0 = std::time::Instant::now();
+        let ins = inputs::standard_inputs(g, &s, rule, d, n, max_len);
+        if t0.elapsed().as_secs() >= 3 && std::env::var("VERIF_DEBUG").is_ok() {
+            eprintln!("slow input generation ({:?}) for rule {} of\n{}", t0.elapsed(), rule, print(g).text);
+        }
+        for (i, toks) in ins.into_iter().enumerate() {
             let mut r = Req::new(gi, toks);
             r.entry = entry;
             r.enc = (i % 2) as u8;
